@@ -312,8 +312,70 @@ func genRefGrant() {
 		fail("RefGrantFacts: no ReferenceGrant entry in registerControllers")
 	}
 	st := src("internal/mode/static/state/store.go")
-	m.strs("trackerUpsertBody", st.stmts(st.fn("changeTrackingUpdater", "upsert").Body), "statements of changeTrackingUpdater.upsert")
-	m.strs("trackerDeleteBody", st.stmts(st.fn("changeTrackingUpdater", "delete").Body), "statements of changeTrackingUpdater.delete")
+	// upsert / delete of the change-tracking updater: only what the ReferenceGrant arm of the model needs —
+	// the persisted-store block (what is written, when delete answers "unchanged"), the branch taken by a
+	// kind WITHOUT predicate, and the order of these parts. Everything that concerns kinds with a
+	// predicate (which object the predicate judges) is deliberately not pinned here (C01's subject).
+	for _, fnName := range []string{"upsert", "delete"} {
+		body := st.fn("changeTrackingUpdater", fnName).Body
+		var shape, storeKey, noPred []string
+		for i, x := range body.List {
+			switch y := x.(type) {
+			case *ast.IfStmt:
+				cond := st.text(y.Cond)
+				switch {
+				case strings.Contains(cond, "s.store.persists("):
+					shape = append(shape, "store")
+					storeKey = append(storeKey, "if "+cond)
+					walk(y.Body, func(n ast.Node) bool {
+						switch z := n.(type) {
+						case *ast.AssignStmt:
+							if strings.Contains(st.text(z), "s.store.get(") {
+								storeKey = append(storeKey, st.text(z))
+							}
+						case *ast.ExprStmt:
+							if t := st.text(z); strings.HasPrefix(t, "s.store.upsert(") || strings.HasPrefix(t, "s.store.delete(") {
+								storeKey = append(storeKey, t)
+							}
+						case *ast.IfStmt:
+							if strings.Contains(st.text(z.Body), "return") {
+								storeKey = append(storeKey, st.text(z))
+							}
+						}
+						return true
+					})
+				case i > 0 && strings.Contains(st.text(body.List[i-1]), "s.stateChangedPredicates["):
+					shape = append(shape, "nopred")
+					noPred = append(noPred, st.text(y))
+				default:
+					shape = append(shape, "if "+cond)
+				}
+			case *ast.ReturnStmt:
+				shape = append(shape, "return")
+			case *ast.AssignStmt:
+				if strings.Contains(st.text(y), "s.stateChangedPredicates[") {
+					shape = append(shape, "lookup")
+					noPred = append(noPred, st.text(y))
+				}
+			case *ast.DeclStmt:
+			default:
+				shape = append(shape, st.text(x))
+			}
+		}
+		title := strings.ToUpper(fnName[:1]) + fnName[1:]
+		m.strs("tracker"+title+"Shape", shape, "changeTrackingUpdater."+fnName+": order of the store block, the predicate lookup, the no-predicate branch and returns (plain assignments/declarations omitted)")
+		m.strs("tracker"+title+"Store", storeKey, "changeTrackingUpdater."+fnName+": the persisted-store block (condition, store reads/writes, early returns)")
+		m.strs("tracker"+title+"NoPredicate", noPred, "changeTrackingUpdater."+fnName+": predicate lookup and the branch for a kind without predicate")
+	}
+	// how a cfg entry's predicate/store reach the maps consulted above
+	var cfgIfs []string
+	walk(st.fn("", "newChangeTrackingUpdater").Body, func(n ast.Node) bool {
+		if is, ok := n.(*ast.IfStmt); ok && strings.HasPrefix(st.text(is.Cond), "cfg.") {
+			cfgIfs = append(cfgIfs, st.text(is))
+		}
+		return true
+	})
+	m.strs("trackerCfgIfs", cfgIfs, "newChangeTrackingUpdater: which cfg entries get a predicate / a store (nil predicate = absent from the map)")
 	m.strs("setChangeTypeBody", st.stmts(st.fn("changeTrackingUpdater", "setChangeType").Body), "statements of setChangeType")
 	var proc []string
 	for _, x := range cp.stmts(cp.fn("ChangeProcessorImpl", "Process").Body) {
